@@ -124,7 +124,7 @@ def run(ctx):
     small = dict(MaxEntries=3, MaxCount=10) if q else {}
     ctx.write_cfg("c15_dir_allowed.cfg", consts(DirImpl=False, **small), invariants=DIR_INVS, spec="DirSpec")
     ra = ctx.tlc_must_pass("UfsData", "c15_dir_allowed.cfg", timeout=600, heap="4g", name="dir:any-allowed-outcome")
-    ctx.write_cfg("c15_dir_impl.cfg", consts(DirImpl=True), invariants=[i for i in DIR_INVS if i != "FastAgrees"], spec="DirSpec")
+    ctx.write_cfg("c15_dir_impl.cfg", consts(DirImpl=True), invariants=[i for i in DIR_INVS if i != "FastAgrees"] + ["WindowSafe"], spec="DirSpec")
     ri = ctx.tlc_must_pass("UfsData", "c15_dir_impl.cfg", timeout=600, heap="4g", name="dir:transcribed-window")
     states = ra.distinct + ri.distinct
     trans = ra.generated + ri.generated
